@@ -1,0 +1,12 @@
+//go:build verif
+// +build verif
+
+package ion
+
+// Add-only observation shims for the /verif conformance harness.
+// Compiled only with -tags verif; nothing here changes behaviour.
+
+// VerifNegZero reports whether this decimal is the negative zero.
+func (d *Decimal) VerifNegZero() bool {
+	return d.isNegZero
+}
